@@ -4,14 +4,18 @@
        first or eighth rank, or the side not to move in check (contrapositive of valid_sound);
      - valid() implies the representation invariant wf, and wf is preserved by makemove for every move of the
        stated shape (C02) and restored exactly by undomove/undonull (C03);
-     - every magic-table index is inside the 88 772-slot array for every occupancy (C14_*_lookup).
+     - every magic-table index is inside the 88 772-slot array for every occupancy (C14_*_lookup);
+     - COMPLETENESS (ValidExact): valid() is TRUE on the whole domain (wf, rooks_ok, hash consistent, legal-consistent),
+       hence after set_fen of a legal-consistent position and after every prefix of every history of generated
+       moves, null moves played when not in check, and undos (C20_valid_on_histories); a null move played while in
+       check makes valid() false (C20_null_in_check_invalid), so that side condition is necessary.
    Outside the model, decided by execution: assertion failures, out-of-bounds / use-after-free accesses, invalid
    shifts and other UB are searched for by running every correspondence script under the assertion + ASan/UBSan
    build and comparing its observations with the optimised build; heap behaviour of std::vector/std::string,
    uninitialised reads and compiler-specific UB are not expressible in the model.  Statements only. *)
 From Coq Require Import NArith List Bool.
 From LC Require Import Bits Types BitboardModel MoveModel ZobristModel PositionModel MakeModel Spec.Rules
-  Refine.Abs Refine.Board Refine.Make Refine.Wf Refine.MakeAbs ValidFacts MakeFacts.
+  Refine.Abs Refine.Board Refine.Make Refine.Wf Refine.MakeAbs ValidFacts MakeFacts HashFacts FenModel MovegenModel ValidExact.
 Import ListNotations.
 Local Open Scope N_scope.
 
@@ -38,5 +42,16 @@ Proof. exact (fun K p m H1 H2 H3 => proj2 (makemove_refines K p m H1 H2 H3)). Qe
 Theorem C20_undo_restores_validity : forall K p m, move_fields_ok p m -> valid K (undomove (makemove K p m)) = valid K p.
 Proof. intros K p m H. rewrite undo_make by exact H. reflexivity. Qed.
 
+Theorem C20_valid_complete : forall K dfrc p, wf p = true -> rooks_ok p -> hash_ok K p -> legal_consistent dfrc (abs p) = true -> valid K p = true.
+Proof. exact valid_complete. Qed.
+Theorem C20_valid_on_histories : forall K dfrc fen ops,
+  let p0 := set_fen K fen dfrc in
+  wf p0 = true -> rooks_ok p0 -> legal_consistent dfrc (abs p0) = true -> hops_ok K (p0, []) ops ->
+  forall n, inv5 K dfrc (fst (hrun K (firstn n ops) (p0, []))).
+Proof. exact C20_valid_on_histories. Qed.
+Theorem C20_null_in_check_invalid : forall K dfrc p, dom K dfrc p -> in_check p = true -> valid K (makenull K p) = false.
+Proof. exact makenull_in_check_invalid. Qed.
+
+Print Assumptions C20_valid_complete. Print Assumptions C20_valid_on_histories. Print Assumptions C20_null_in_check_invalid.
 Print Assumptions C20_valid_sound. Print Assumptions C20_valid_rejects. Print Assumptions C20_valid_implies_wf.
 Print Assumptions C20_wf_preserved_by_makemove. Print Assumptions C20_undo_restores_validity.
